@@ -29,8 +29,18 @@ ASSUMPTIONS = [
 ]
 
 RESOURCES = {
-    # field: mark that bounds the truncation
+    # field: mark that bounds the truncation (None: the mark is one of the values taken at build entry and passed in)
     'input': None, 'flow_stack': 'fs_len', 'code': 'cs_len', 'debug_map': 'cs_len', 'dict': 'di_len',
+    # what build-time execution (meta blocks, immediate words) leaves on the run-time stacks
+    'data_stack': None, 'return_stack': 'rs_len', 'loops': 'ls_len', 'special': 'ss_ptr', 'sources': None,
+}
+CORE_RESOURCES = ('input', 'flow_stack', 'code', 'debug_map', 'dict')      # identify a release function
+# State fields that code reachable from a build entry grows and that are deliberately not rolled back
+GROWN_EXEMPT = {
+    'heap': 'cells allocated by a rejected source are unreachable once its dictionary entries are gone (listed assumption)',
+    'reverse_log': 'the debugger log records what happened, rejected or not; it does not influence later sources (C15.R1)',
+    'stdout': 'captured output that was already produced',
+    'nested': 'restored by popping (releases:nested)', 'ctx': 'restored from nested (releases:ctx)',
 }
 
 
@@ -62,7 +72,7 @@ def release_profile(fx, W, fn, memo=None):
     out = set()
     for w in W.get(fn, []):
         fld = w['field'][0]
-        if fld in RESOURCES and w['how'].startswith('call:shrink'):
+        if fld in CORE_RESOURCES and w['how'].startswith('call:shrink'):
             out.add(fld)
         if fld == 'ctx' and len(w['field']) == 1 and w['how'] in ('assign', 'call:overwrite:swap-with', 'call:overwrite:replace'):
             out.add('ctx')
@@ -109,7 +119,7 @@ def run(rep, facts, tier):
     rep.extra['helpers_looked_through'] = {e: V.inlined_into(e) for e in entries + ['state::State::context_close'] if V.inlined_into(e)}
     rep.floor('C10 build entries', len(entries), 1)
     memo = {}
-    full = set(RESOURCES) | {'ctx', 'nested'}
+    full = set(CORE_RESOURCES) | {'ctx', 'nested'}
     release_fns = {fn for fn in fx.fns if full <= release_profile(fx, W, fn, memo)}
     # context_close on success is also a release of the context (it pops and restores)
     close = 'state::State::context_close'
@@ -267,6 +277,59 @@ def run(rep, facts, tier):
                 '%s has no halt write for a source that failed while running' % short(rf), rf,
                 [w for w in ws if is_halt_write(f, w)][0]['at'] if halts else f.j['span'])
     rep.floor('C10 release functions', n_rel, 1)
+
+    # everything a build can grow is either released or deliberately kept: State fields with a growing write in code reachable
+    # from a build entry (the words run by meta blocks and immediate words included)
+    from ..core import runtime_targets, immediate_targets
+    extra = {'state::State::fetch_and_run': runtime_targets(fx), 'state::State::run_immediate': immediate_targets(fx)}
+    breach = fx.reachable_from(entries, extra_edges=extra)
+    grown = {}
+    for fn in breach:
+        for w in W.get(fn, []):
+            if w['how'].startswith('call:grow') and not w.get('elem'):
+                grown.setdefault(w['field'][0], fn)
+    rep.floor('C10 State fields grown at build time', len(grown), 8)
+    for fld, fn in sorted(grown.items()):
+        ok = fld in RESOURCES or fld in GROWN_EXEMPT
+        rep.add('C10.R1', 'C10.R1:grown-at-build-time:%s' % fld, ok,
+                ('released by the release function' if fld in RESOURCES else 'kept on purpose: ' + GROWN_EXEMPT.get(fld, '')) if ok else
+                'State.%s grows while a source is built (e.g. in %s) and no release function cuts it back: a rejected source leaves it behind'
+                % (fld, short(fn)), fn, None, nontrivial=False)
+    # in-place changes cannot be undone by cutting back to a mark: an element of code / dict may be overwritten at build time only
+    # at an index that belongs to this build (taken from a pending flow of the definition under construction / an origin of
+    # this build), never at an index found by searching the whole container
+    n_ow = 0
+    for fn in sorted(breach):
+        f = fx.fns.get(fn)
+        if f is None:
+            continue
+        if not any(w['field'][0] in ('dict', 'code') and w.get('elem') and w['how'].startswith('assign') for w in W.get(fn, [])):
+            continue
+        f = inline.thread_fn(f)       # `let own = if c { Some(i) } else { None }; match own {..}` reads as the nested test it stands for
+        for w in awrite.field_writes(fx, f, tracked):
+            if w['field'][0] not in ('dict', 'code') or not w.get('elem') or not w['how'].startswith('assign'):
+                continue
+            n_ow += 1
+            idx_txt = expr_str(f.expr_of_place(w['stmt']['lhs']), -40)
+            searched = 'dict_pos' in idx_txt or 'rposition' in idx_txt or '::position' in idx_txt or 'dict_find' in idx_txt
+            from_flow = 'FunctionFlow' in idx_txt or 'top_function_flow' in idx_txt or 'pop_flow' in idx_txt or 'arg' in idx_txt.split('index_mut')[-1][:40]
+            guarded = False
+            if searched:
+                # accepted when the overwrite is confined to entries of the current context: index >= ctx.di_len on every path
+                from .c08 import guard_facts
+                from ..zone import strip as zstrip
+                for (op, a, b) in guard_facts(f, w['bb']):
+                    sa, sb = expr_str(zstrip(a), -20), expr_str(zstrip(b), -20)
+                    if op in ('Ge', 'Gt') and 'dict_pos' in sa and 'di_len' in sb or op in ('Le', 'Lt') and 'di_len' in sa and 'dict_pos' in sb:
+                        guarded = True
+            ok = not searched or guarded
+            rep.add('C10.R1', 'C10.R1:in-place-overwrite:%s:%s' % (fn, w['field'][0]), ok,
+                    ('the overwritten entry was made by this build (index from its own pending definition / origin)' if not searched else
+                     'an entry found by name is overwritten only if it lies above the context mark (index >= ctx.di_len)') if ok else
+                    '%s overwrites an existing %s entry found by searching the whole container: the change reaches entries made by earlier '
+                    'sources and survives the rejection of this one (`#( 1 const A #)` then the rejected `#( 2 const A #) bogus` leaves A = 2)'
+                    % (short(fn), w['field'][0]), fn, w['at'])
+    rep.floor('C10 in-place overwrites of code / dict at build time', n_ow, 3)
 
     # context_close: every path from nested.pop() to return assigns ctx
     fx.need(close)
